@@ -55,7 +55,9 @@ def gen_bstep(rng, doc_keys):
     if k == 'attr':
         return ('attr', rng.choice(RAW))
     if k == 'item':
-        return ('item', rng.choice(doc_keys + ['x-y', 'x_y', 'a-b-c', 'a_b_c']))
+        # item keys are never rewritten: also not the words of the builder's own vocabulary (C15-m3)
+        return ('item', rng.choice(doc_keys + ['x-y', 'x_y', 'a-b-c', 'a_b_c', 'wildcard', 'generic_wildcard', 'wc', 'gwc',
+                                               'rec', 'recursive', 'parent']))
     if k == 'idx':
         return ('idx', rng.choice([0, 1, -1, 2]))
     if k == 'slice':
@@ -121,7 +123,8 @@ def gen_bcase(rng, log=False):
         base = gen_doc(rng, budget=rng.choice([6, 10, 16]), depth=4, scalars=LOG_SCALARS,
                        keys=['a', 'b', 'k', 'x-y', 'x_y', "q'", 'zz', 'c'])
     else:
-        base = gen_doc(rng, budget=rng.choice([6, 10, 16]), depth=4, keys=['a', 'b', 'k', 'x-y', 'x_y', 'a-b-c', 'a_b_c', 'zz', 'c'])
+        base = gen_doc(rng, budget=rng.choice([6, 10, 16]), depth=4,
+                       keys=['a', 'b', 'k', 'x-y', 'x_y', 'a-b-c', 'a_b_c', 'zz', 'c', 'wildcard', 'generic_wildcard', 'parent', 'rec'])
     doc_keys = ['a', 'b', 'k', 'x-y', 'x_y', 'a-b-c', 'zz']
     ops = [('new', rng.random() < 0.5)]
     n = 1
